@@ -137,6 +137,9 @@ func buildOracle(b builds, cfg tierCfg) oracleInfo {
 			defer iw.Done()
 			defer func() { <-sem }()
 			o := oracleRun(b.ref, cfg.procWall, corpusPath, "canonical", []int{id})
+			if len(o.Outcomes) == 0 {
+				fatal("isolated oracle call %d produced nothing", id)
+			}
 			iso[id] = o.Outcomes[0]
 			if o.Output != 0 || len(o.ArgMut) > 0 {
 				iso[id] += fmt.Sprintf(" [output=%d argmut=%v]", o.Output, o.ArgMut)
@@ -163,6 +166,21 @@ func buildOracle(b builds, cfg tierCfg) oracleInfo {
 		if o.Output != 0 {
 			r := seqRecord(&oi.corpus, o.IDs, len(o.IDs)-1, ref, "output_written", build)
 			r.Violations = []proto.Violation{{Class: "output_written", Detail: fmt.Sprintf("%d bytes on stdout/stderr during a sequential pass (%s order)", o.Output, o.Order)}}
+			return r
+		}
+		if o.Hung >= 0 {
+			// reference for the call that hung: the same call alone in a fresh process
+			hid := o.IDs[o.Hung]
+			alone := oracleRun(b.ref, cfg.procWall, corpusPath, "canonical", []int{hid})
+			if alone.Hung >= 0 {
+				hc := oi.corpus.Calls[hid]
+				fatal("%s(%q,%q) does not return even when it is the only call of a fresh process: not a C13 matter, and the corpus cannot contain it", hc.Fn, hc.Expr, hc.List)
+			}
+			ref[hid] = alone.Outcomes[0]
+			r := seqRecord(&oi.corpus, o.IDs, o.Hung, ref, "deadlock", "plain")
+			c := oi.corpus.Calls[o.IDs[o.Hung]]
+			r.Violations = []proto.Violation{{Class: "deadlock", Task: 0, Op: o.Hung, Fn: c.Fn,
+				Detail: fmt.Sprintf("sequential pass (%s order): %s(%q, %q) as call #%d never returned (it returns when made alone)", o.Order, c.Fn, c.Expr, c.List, o.Hung)}}
 			return r
 		}
 		if len(o.ArgMut) > 0 {
